@@ -68,6 +68,9 @@ var (
 	}
 
 	errParamExp = errors.New("syntax error: invalid parameter expansion")
+
+	// bailout is the panic value used to terminate the lexer goroutine.
+	bailout = errors.New("bailout")
 )
 
 type lexer struct {
@@ -136,7 +139,7 @@ func (l *lexer) run() {
 			close(l.done)
 		}
 
-		if e := recover(); e != nil {
+		if e := recover(); e != nil && e != bailout {
 			// re-panic
 			panic(e)
 		}
@@ -1597,7 +1600,7 @@ func (l *lexer) emit(typ int) {
 	case l.token <- tok:
 	case <-l.cancel:
 		// bailout
-		panic(nil)
+		panic(bailout)
 	}
 	l.mark(0)
 }
